@@ -212,6 +212,66 @@ def check_foreign(item):
     return fails
 
 
+def check_regconst(item):
+    """A number class registered at run time (after the mapper modules were imported): while it is
+    registered its instances are constants for every mapper -- map_constant is the handler, the
+    stock traversals pass them through; before, and after unregistering, they are rejected."""
+    from fractions import Fraction
+
+    from pymbolic.mapper import (
+        CachedCollector, CachedIdentityMapper, CachedWalkMapper, Collector, IdentityMapper,
+        WalkMapper)
+    import pymbolic.primitives as p
+
+    from vf.regconst import Frac2, constant_class_history
+    phase, cname, cached, entry = item
+    cls = {"Fraction": Fraction, "Frac2": Frac2}[cname]
+    half = cls(1, 2)
+    with constant_class_history(phase, Fraction) as is_const:
+        tree = p.Sum((p.Product((half, p.Variable("x"))), p.Variable("y")))
+        try:
+            if entry in ("call", "rec", "rec_fallback"):
+                log = []
+                m = make_mapper(cached, FOREIGN_HANDLERS, log)
+                fn = {"call": m, "rec": m.rec, "rec_fallback": m.rec_fallback}[entry]
+                res = ("ok", fn(half, 7, k=1))
+                good = res == ("ok", ("handled", "map_constant")) and \
+                    log == [("map_constant", (7,), {"k": 1})]
+            elif entry == "identity":
+                res = ("ok", (CachedIdentityMapper if cached else IdentityMapper)()(tree))
+                good = res[1] == tree and type(res[1].children[0].children[0]) is cls
+            elif entry == "walk":
+                seen = []
+
+                class W(CachedWalkMapper if cached else WalkMapper):
+                    def visit(self, expr, *a, **k):
+                        seen.append(expr)
+                        return True
+                W()(tree)
+                res = ("ok", len(seen))
+                good = any(x is half for x in seen) and len(seen) == 5
+            else:
+                class Co(CachedCollector if cached else Collector):
+                    def map_variable(self, expr, *a, **k):
+                        return {expr}
+                res = ("ok", Co()(tree))
+                good = res[1] == {p.Variable("x"), p.Variable("y")}
+        except RecursionError:
+            raise
+        except Exception as e:  # noqa: BLE001
+            res = ("raised", type(e).__name__)
+            good = False
+    if is_const and not good:
+        return [("registered-constant", f"registered-constant|{cname}|{entry}|cached={cached}",
+                 f"Fraction is a registered constant class, {cname}(1, 2) through {entry}: {res}")]
+    if not is_const and res[0] != "raised":
+        return [("unregistered-constant-accepted",
+                 f"unregistered-constant-accepted|{phase}|{cname}|{entry}|cached={cached}",
+                 f"Fraction is not registered ({phase}) but {cname}(1, 2) went through {entry}: "
+                 f"{res}")]
+    return []
+
+
 BUILTIN_NAMES = {
     "Variable": "map_variable", "Wildcard": "map_wildcard", "DotWildcard": "map_dot_wildcard",
     "StarWildcard": "map_star_wildcard", "FunctionSymbol": "map_function_symbol",
@@ -295,10 +355,25 @@ def t_identity(spec, args, kw, cached):
     from pymbolic.mapper import CachedIdentityMapper, IdentityMapper
     import pymbolic.primitives as p
     expr = build_shared(spec) if cached else build(spec)
-    cls = CachedIdentityMapper if cached else IdentityMapper
+    base = CachedIdentityMapper if cached else IdentityMapper
+    entries = []
+
+    class cls(base):
+        # __call__ is the top-level interface a subclass may give another meaning to; the
+        # traversal itself has to recurse through rec()
+        def __call__(self, e, *a, **k):
+            entries.append(1)
+            return super().__call__(e, *a, **k)
     res = cls()(expr, *args, **kw)
+    if len(entries) != 1:
+        return "identity:reentered-call", (f"an overridden __call__ was entered {len(entries)} "
+                                           "times during one traversal")
     if norm(res) != sort_maps(spec):
         return "identity:not-equal", f"returned {show(norm(res))}"
+    if isinstance(expr, np.ndarray) and (not isinstance(res, np.ndarray)
+                                         or res.shape != expr.shape):
+        return "identity:not-equal", (f"an array of shape {expr.shape} came back as "
+                                      f"{type(res).__name__}")
     mutable_inside = any(c[0] in ("list", "array") for c in walk(spec))
     if isinstance(expr, (p.Expression, tuple)) and res is not expr and not mutable_inside:
         return "identity:not-same-object", "nothing changed but a new object was returned"
@@ -605,7 +680,9 @@ class C04(Check):
             "init=False / hash=False; explicit handler names, also ones equal to the base's) "
             "x all subsets of the handlers in their chain x {Mapper, CachedMapper} x {__call__, "
             "rec, rec_fallback} x 3 extra-argument shapes, and with the selected handler raising each "
-            "of 8 exception classes (must reach the caller, no other handler tried); 23 kinds of foreign objects; derived "
+            "of 8 exception classes (must reach the caller, no other handler tried); instances of a "
+            "number class (and of a subclass) before / while / after the class is registered at run "
+            "time x 6 entry points; 23 kinds of foreign objects; derived "
             "handler names of all built-in and generated classes. traversals: every constructor "
             "shape of the full alphabet with every leaf combination and every (parent, position, "
             "child) nesting (thorough: plus three-level chains over 20 shapes) x extra-argument shapes (quick 3, thorough 6) x {identity, rewriting "
@@ -644,6 +721,15 @@ class C04(Check):
                     for entry in ("call", "rec", "rec_fallback"):
                         yield ("foreign", (f[0], cached, entry))
 
+        def regconst():
+            from vf.regconst import PHASES
+            for phase in PHASES:
+                for cname in ("Fraction", "Frac2"):
+                    for cached in (0, 1):
+                        for entry in ("call", "rec", "rec_fallback", "identity", "walk",
+                                      "collector"):
+                            yield ("regconst", (phase, cname, cached, entry))
+
         def names():
             for n in BUILTIN_NAMES:
                 yield ("name", ("builtin", n))
@@ -652,7 +738,8 @@ class C04(Check):
 
         shapes = "q" if tier == "quick" else "t"
         fams = [
-            ("dispatch", dispatch), ("foreign", foreign), ("names", names),
+            ("dispatch", dispatch), ("foreign", foreign), ("registered-constant-class", regconst),
+            ("names", names),
             ("trav-depth2", lambda: (("trav", s, shapes)
                                      for s in gen.depth2(TRAV_CTORS, leaves))),
             ("trav-nest2", lambda: (("trav", s, shapes)
@@ -677,14 +764,23 @@ class C04(Check):
         for tag in ("U:vf.usercls_gen.SumU", "U:vf.usercls_gen.SumUU"):
             yield ("trav", (tag, T(V("x"), V("y"))), "t")
         yield ("trav", ("Slice", T(V("x"))), "q")
+        # arrays of every rank: 0-d, empty, 1-d, 2-d, 3-d -- alone and as an operand
+        e1, e2 = Sum(V("x"), V("y")), V("x")
+        for shape, n in (((), 1), ((0,), 0), ((1,), 1), ((3,), 3), ((2, 2), 4), ((1, 3), 3),
+                         ((2, 1, 2), 4), ((2, 0), 0)):
+            arr = ("array", shape, *[(e1 if i % 2 else e2) for i in range(n)])
+            yield ("trav", arr, "q")
+            yield ("trav", ("tuple", arr, V("y")), "q")
+            yield ("trav", ("list", arr), "q")
         yield ("trav", ("U:vf.usercls_gen.VarU", S("x")), "t")
         yield ("trav", ("U:vf.usercls_gen.ComU", V("x"), ("none",), S("pymbolic_eval")), "t")
 
     def check_item(self, family, item, tier):
         r = Res()
         kind = item[0]
-        if kind in ("dispatch", "foreign", "name"):
-            fn = {"dispatch": check_dispatch, "foreign": check_foreign, "name": check_name}[kind]
+        if kind in ("dispatch", "foreign", "name", "regconst"):
+            fn = {"dispatch": check_dispatch, "foreign": check_foreign, "name": check_name,
+                  "regconst": check_regconst}[kind]
             r.evals += 1
             r.keys.append(item)
             for k, sig, detail in fn(tuple(item[1])):
